@@ -686,6 +686,11 @@ WITNESSES = [
     {"kind": "filter", "size": 6, "name": "ramp"},
     {"kind": "filter", "size": 10, "name": "hann"},
     {"kind": "filter", "size": 1, "name": "ramp"},
+    {"kind": "filter", "size": 1, "name": "hamming"},     # np.hamming(1) == ones(1)
+    {"kind": "filter", "size": 1, "name": "hann"},
+    {"kind": "filter", "size": 1, "name": "cosine"},
+    {"kind": "filter", "size": 1, "name": "shepp-logan"},
+    {"kind": "filter", "size": 1, "name": None},
     {"kind": "filter", "size": 3, "name": "ramp"},
     {"kind": "filter", "size": 7, "name": "hamming"},
     # legacy interpolant: extrapolation beyond the detector end (circle=False, N = 10, 45 degrees: corner pixels reach t_idx > N-1)
